@@ -6,7 +6,6 @@ import (
 	"context"
 	"errors"
 	"fmt"
-	"maps"
 	"math"
 	"os"
 	"reflect"
@@ -1813,27 +1812,18 @@ func (m *Machine) ParseStates(states S) S {
 
 	// check if all states are defined in the schema
 	seen := make(map[string]struct{})
-	dups := false
 	for i := range states {
 		if _, ok := m.schemaSafe()[states[i]]; !ok {
 			continue
 		}
-		if _, ok := seen[states[i]]; !ok {
-			seen[states[i]] = struct{}{}
-		} else {
-			// mark as duplicated
-			dups = true
-		}
+		seen[states[i]] = struct{}{}
 	}
 
-	if dups {
-		// keep the order, drop the unknown ones
-		return slicesFilter(slicesUniq(states), func(s string, _ int) bool {
-			_, ok := seen[s]
-			return ok
-		})
-	}
-	return slices.Collect(maps.Keys(seen))
+	// keep the order (never the map's), drop the unknown ones and duplicates
+	return slicesFilter(slicesUniq(states), func(s string, _ int) bool {
+		_, ok := seen[s]
+		return ok
+	})
 }
 
 // VerifyStates verifies an array of state names and returns an error in case
